@@ -1020,6 +1020,10 @@ class _GenerateRenderMethod:
 
         self.printer.start_source(node.lineno)
         self.printer.writelines(
+            # a call with content that is still collecting its arguments
+            # (this tag runs inside a caller.body() of its argument list)
+            # keeps its pending caller
+            "__M_nextcaller = context.caller_stack.nextcaller",
             # push on caller for nested call
             "context.caller_stack.nextcaller = "
             "runtime.Namespace('caller', context, "
@@ -1031,7 +1035,7 @@ class _GenerateRenderMethod:
             "__M_writer(%s)"
             % self.create_filter_callable([], node.expression, True),
             "finally:",
-            "context.caller_stack.nextcaller = None",
+            "context.caller_stack.nextcaller = __M_nextcaller",
             None,
         )
 
